@@ -77,3 +77,16 @@ def ar_autocorr(a, rho, nlags):
         m = len(r)
         r.append(-sum(a[j] * r[m - 1 - j] for j in range(p)))
     return np.array(r[:nlags + 1])
+
+
+def fb_matrix(x, P):
+    """Forward-backward data matrix of order P: rows x[i+P-1..i] and conj(x[i+1..i+P]), i < N-P."""
+    x = np.asarray(x).astype(complex)
+    N = len(x)
+    NP = N - P
+    FB = np.zeros((2 * NP, P), dtype=complex)
+    for i in range(NP):
+        for k in range(P):
+            FB[i, k] = x[i - k + P - 1]
+            FB[i + NP, k] = np.conj(x[i + k + 1])
+    return FB
